@@ -358,8 +358,10 @@ class FakeSession:
         self.r, self.srv = runner, server
         self.calls = {'history': 0, 'batch': 0}
 
+    closing = False          # True while the hub connection is down
+
     def is_closing(self):
-        return False
+        return self.closing
 
     def abort(self):
         pass
@@ -379,9 +381,16 @@ class FakeSession:
                 await self.srv._delay()
                 raise asyncio.TimeoutError() if kind == 'timeout' else ConnectionError('connection lost')
         if method == 'blockchain.address.get_history':
-            return await self.srv.get_history(args[0])
+            answer = await self.srv.get_history(args[0])
+            if self.closing:                     # the connection dropped while the request was in flight
+                r.retract_fetch(args[0])
+                raise ConnectionError('connection lost')
+            return answer
         if method == 'blockchain.transaction.get_batch':
-            return await self.srv.get_transaction_batch(args)
+            answer = await self.srv.get_transaction_batch(args)
+            if self.closing:
+                raise ConnectionError('connection lost')
+            return answer
         if method == 'blockchain.address.subscribe':
             return await self.srv.subscribe_address(*args)
         if method == 'blockchain.transaction.get_merkle':
@@ -417,6 +426,8 @@ class Runner:
         self.crash_armed = None              # number of add_keys calls until the process dies between its two writes
         self.restarts = 0
         self.crashed = False
+        self.last_begin = {}
+        self.hung = 0
         self.activity = 0
         self.count_held = 0
 
@@ -468,6 +479,15 @@ class Runner:
                 self.crash_armed = act[1]
             elif kind == 'restart':
                 await self.restart()
+            elif kind == 'drop':               # the hub connection is lost: requests in flight fail, new ones wait
+                self.session.closing = True
+                for key, ev in self.gates.items():
+                    ev.set()
+            elif kind == 'reconnect':          # what Network.network_loop does once a hub is connected again
+                self.session.closing = False
+                self.ledger.network._on_connected_controller.add(True)
+                if len(act) > 1 and act[1] == 'resubscribe':      # Ledger.join_network
+                    await self.ledger.subscribe_accounts()
             elif kind == 'hold_sub':           # the k-th subscribe_address answer from now on is held back
                 self.gates[('sub', self.net.sub_calls + act[1])] = asyncio.Event()
             elif kind == 'release_sub':
@@ -500,6 +520,15 @@ class Runner:
     def on_fetch(self, address):
         st = self.locked.get(address)
         self.log('begin', self.world.id_of_addr[address], self.status_hist[st])
+        self.last_begin[address] = self.trace[-1]
+
+    def retract_fetch(self, address):
+        """the answer was lost with the connection: for the wallet that attempt never read the server state"""
+        op = self.last_begin.pop(address, None)
+        for i in range(len(self.trace) - 1, -1, -1):
+            if self.trace[i] is op:
+                del self.trace[i]
+                break
 
     # -- instrumentation (instance-level wrappers; nothing in /repo is touched) ---------------------
     def instrument(self):
@@ -593,14 +622,25 @@ class Runner:
 
     # -- driving --------------------------------------------------------------------------------
     async def quiesce(self):
-        for _ in range(100000):
+        """wait until every update task has finished; when tasks are still pending although nothing has moved for a
+        while (all answers delivered, connection up) they are recorded as hung and the checkpoint is taken anyway"""
+        idle_since, last = None, -1
+        for _ in range(1000000):
             tasks = list(self.ledger._update_tasks._tasks)
             if not tasks:
                 await asyncio.sleep(0)
                 if not self.ledger._update_tasks._tasks:
+                    self.hung = 0
                     return
                 continue
-            await asyncio.wait(tasks)
+            await asyncio.wait(tasks, timeout=0.05)
+            if self.activity != last:
+                last, idle_since = self.activity, None
+            else:
+                idle_since = (idle_since or 0) + 1
+                if idle_since >= 60:                          # 3 s without any instrumented call
+                    self.hung = len(self.ledger._update_tasks._tasks)
+                    return
         raise RuntimeError('no quiescence')
 
     def notify(self, address, status):
@@ -724,6 +764,8 @@ class Runner:
                     continue                                   # next stage changes the server while syncs run
                 await self.quiesce()
                 await on_checkpoint(si)
+            for t in list(self.ledger._update_tasks._tasks):
+                t.cancel()
             await self.ledger.db.close()
         finally:
             shutil.rmtree(self.dir, ignore_errors=True)
@@ -733,7 +775,8 @@ class Runner:
         w, db = self.world, self.ledger.db
         # asynchronous stream listeners (balance cache reset, header notifications) run as tasks: let them finish
         for _ in range(50):
-            others = [t for t in asyncio.all_tasks() if t is not asyncio.current_task()]
+            others = [t for t in asyncio.all_tasks() if t is not asyncio.current_task()
+                      and t not in self.ledger._update_tasks._tasks]
             if not others:
                 break
             await asyncio.wait(others, timeout=0.2)
@@ -775,7 +818,7 @@ class Runner:
                 'available': det['available'], 'reserved': det['reserved'],
                 'utxos': sorted([tid(o.tx_ref.id), o.position] for o in allu),
                 'spendable': sorted([tid(o.tx_ref.id), o.position] for o in sp)})
-        return {'chains': obs_chains, 'tx': tx, 'txo': txo, 'txi': txi, 'accounts': accounts,
+        return {'hung': self.hung, 'chains': obs_chains, 'tx': tx, 'txo': txo, 'txi': txi, 'accounts': accounts,
                 'headers': len(self.ledger.headers), 'headers_expected': self.headers_pushed}
 
 
@@ -830,6 +873,9 @@ def monitor(world, obs, errors):
     bad = []
     if errors:
         bad.append(f'an update_history task died: {errors[0]}')
+    if obs.get('hung'):
+        bad.append(f'{obs["hung"]} update_history task(s) never finished although the server is quiet and connected '
+                   f'(their address locks stay held)')
     got = {c: (k, h, contiguous) for c, k, h, contiguous in obs['chains']}
     for c, k, hists in exp['chains']:
         gk, gh, contiguous = got.get(c, (0, [], True))
@@ -1116,6 +1162,27 @@ def cache_scenario():
                                                 {'kind': 'p2pkh', 'wrap': 'support', 'amt': 30, 'to': w(0)}], 'height': 6}], 'order_seed': 2}]}
 
 
+def reconnect_scenario(rng, demo=False):
+    """the hub connection drops while k >= 2 address updates have a request in flight (their answers are lost), every one
+    of them waits in the real Network.retriable_call for the reconnect; after the reconnect all must resume."""
+    g = 3 if demo else rng.choice((3, 4))
+    k = 2 if demo else rng.randrange(2, g + 1)
+    def w(n, ch=0):
+        return ['w', 0, ch, n]
+    addrs = list(range(k))
+    actions = [['hold', w(n), 1] for n in addrs]
+    actions += [['add', {'ins': [['ext', 1100 + n]], 'outs': [{'kind': 'p2pkh', 'amt': 100 + n, 'to': w(n)}], 'height': 60 + n}]
+                for n in addrs]
+    order = addrs if demo else rng.sample(addrs, k)
+    actions += [['notify', w(n)] for n in order] + [['pause'], ['drop'], ['pause']]
+    if not demo and rng.random() < 0.5:             # the chain moves on while the wallet is offline
+        actions += [['add', {'ins': [[0, 0]], 'outs': [{'kind': 'p2pkh', 'amt': 60, 'to': w(0, 1)}], 'height': 70}]]
+    actions += [['reconnect'] if demo or rng.random() < 0.5 else ['reconnect', 'resubscribe'], ['pause']]
+    actions += [['notify', w(n)] for n in addrs] + [['notify', w(0, 1)], ['pause']]
+    return {'accounts': [{'seed_ix': 0, 'gaps': [g, 1]}], 'delay_seed': 0 if demo else rng.randrange(10 ** 6),
+            'real_network': True, 'stages': [{'new': [], 'order_seed': 1}, {'actions': actions}]}
+
+
 def big_subscribe_scenario(gap=1030, paid=(1010,)):
     """one subscribe_addresses call with more than one batch of 1000 addresses: a receiving gap above 1000 and
     funds already sitting on addresses with index >= 1000 when the wallet subscribes (within the gap limit)"""
@@ -1310,12 +1377,16 @@ def main(run):
     run_case(run, model, crash_scenario(rng, demo=True), 'crash:demo')
     for i in range(vlib.scaled(run.tier, 8, 150)):
         run_case(run, model, crash_scenario(rng), f'crash:{i}')
+    # connection loss with several updates in flight, then reconnect (real Network.retriable_call / on_connected.first)
+    run_case(run, model, reconnect_scenario(rng, demo=True), 'reconnect:demo')
+    for i in range(vlib.scaled(run.tier, 5, 100)):
+        run_case(run, model, reconnect_scenario(rng), f'reconnect:{i}')
     # more than one batch of 1000 addresses in one subscribe_addresses call (the batch size is a default argument
     # bound at definition time, so the boundary cannot be lowered: the case is really that large)
     run_case(run, model, big_subscribe_scenario(), 'bigsub:1030')
     if run.tier == 'thorough':
         run_case(run, model, big_subscribe_scenario(2100, (999, 1000, 2050)), 'bigsub:2100')
-    n = vlib.scaled(run.tier, 70, 3000)
+    n = vlib.scaled(run.tier, 55, 3000)
     for i in range(n):
         size = rng.choice((3, 6, 10, 16, 24, 30))
         sc = gen_scenario(rng, size)
